@@ -80,11 +80,16 @@ def set_piece():
     return {"package": "inkayaku_core", "append_to": "core/src/constants/piece.rs", "module": _read("kani/piece.rs")}
 
 
+def set_fensquare():
+    return {"package": "inkayaku_board", "append_to": "board/src/board/constants.rs", "module": _read("kani/fensquare.rs")}
+
+
 def set_ucimove():
     return {"package": "inkayaku_uci", "append_to": "uci/src/uci.rs", "module": _read("kani/ucimove.rs")}
 
 
 SETS = {
+    "fensquare": set_fensquare,
     "piece": set_piece,
     "attacks": set_attacks,
     "ucimove": set_ucimove,
@@ -122,6 +127,9 @@ HARNESSES = {
     },
     "piece": {
         "piece_from_char_total_and_exact": {"complete": True, "note": "all chars, loop-free"},
+    },
+    "fensquare": {
+        "square_shift_from_fen_is_exact_on_square_names": {"complete": True, "note": "all 64 square names (symbolic file and rank bytes), loop-free apart from the 2-char decoding"},
     },
     "square": {
         "from_chars_total_and_exact": {"complete": True, "note": "all char x char pairs, loop-free"},
